@@ -29,6 +29,9 @@ class FA:
     def __init__(self, ck, qual_or_fi, exc_mode: Optional[str] = None):
         self.ck = ck
         self.fi: FuncInfo = ck.fn(qual_or_fi) if isinstance(qual_or_fi, str) else qual_or_fi
+        # True when a rule asked for a private helper that no longer exists and was handed the helper's
+        # reference caller instead (the helper was inlined there): rules can switch to role-based anchoring
+        self.host_fallback = isinstance(qual_or_fi, str) and self.fi.qual != qual_or_fi
         ck.functions_analysed.add(self.fi.qual)
         self.node = self.fi.node
         self.qual = self.fi.qual
@@ -82,6 +85,8 @@ class FA:
     def nodes(self, astnode) -> List[int]:
         """CFG nodes evaluating an expression or statement (reachable ones only)."""
         ids = self.cfg.nodes_of(astnode)
+        if not ids and isinstance(astnode, (ast.If, ast.While)):
+            ids = self.cfg.nodes_of(astnode.test)
         if not ids:
             st = self.stmt_of(astnode)
             if st is not None and st is not astnode:
